@@ -3,7 +3,9 @@ import engine_common as ec
 
 # deviation class -> owning properties
 OWNERS = {
-    "times": {"C02", "C03"},      # C03: "... or a wake-up it asked for itself falls due" - a missing / extra cycle is a missing / extra run "userrun": {"C03", "C04", "C08", "C09"}, "order": {"C01"}, "lifecycle": {"C14"},
+    # C03 co-owns "times": "... or a wake-up it asked for itself falls due" - a missing / extra cycle is a missing / extra run
+    "times": {"C02", "C03"},
+    "userrun": {"C03", "C04", "C08", "C09"}, "order": {"C01"}, "lifecycle": {"C14"},
     "error": {"C15"}, "nested": {"C09"}, "result": {"C01", "C02", "C03", "C14", "C15", "C09", "C08", "C04"},
     "pair": {"C09"},
 }
